@@ -322,10 +322,13 @@ func mergeCustomObjectFields(aTypes, bTypes map[string]*ast.Definition, a, b *as
 	return result, nil
 }
 
-// isSameFieldSignature tells whether two declarations of a field agree on its type and on
-// the names, types and defaults of its arguments
+// isSameFieldSignature tells whether two declarations of a field agree on its type, on its own
+// default (input fields) and on the names, types and defaults of its arguments
 func isSameFieldSignature(a, b *ast.FieldDefinition) bool {
 	if a.Type.String() != b.Type.String() || len(a.Arguments) != len(b.Arguments) {
+		return false
+	}
+	if !isSameDefault(a.DefaultValue, b.DefaultValue) {
 		return false
 	}
 	for _, aa := range a.Arguments {
@@ -333,14 +336,18 @@ func isSameFieldSignature(a, b *ast.FieldDefinition) bool {
 		if ba == nil || aa.Type.String() != ba.Type.String() {
 			return false
 		}
-		if (aa.DefaultValue == nil) != (ba.DefaultValue == nil) {
-			return false
-		}
-		if aa.DefaultValue != nil && aa.DefaultValue.String() != ba.DefaultValue.String() {
+		if !isSameDefault(aa.DefaultValue, ba.DefaultValue) {
 			return false
 		}
 	}
 	return true
+}
+
+func isSameDefault(a, b *ast.Value) bool {
+	if (a == nil) != (b == nil) {
+		return false
+	}
+	return a == nil || a.String() == b.String()
 }
 
 func mergeableFields(t *ast.Definition) ast.FieldList {
